@@ -317,6 +317,7 @@ class CFG:
         # whole-condition facts: for a statement S with condition E built from && / ||, the CFG splits E over several
         # blocks; at S's then-target E holds as a whole and at its else-target it fails as a whole.
         extra = {}
+        self._whole = {}
         for b in self.blocks.values():
             if b.term is None or b.tk not in ("IfStmt", "WhileStmt", "ForStmt", "DoStmt", "ConditionalOperator") or len(b.succs) != 2:
                 continue
@@ -337,6 +338,7 @@ class CFG:
                     continue
                 if all(p_ in condblocks for p_ in self.blocks[tgt].preds):
                     extra.setdefault(tgt, []).append(key((Es, pol)))
+                    self._whole.setdefault(tgt, []).append((Es, pol))
 
         order = [b for b in self.blocks if b in self.reach]
         IN = {b: None for b in order}   # None = top (all facts)
